@@ -15,12 +15,14 @@ Values == MaybeW(Leaves) \cup MaybeW(Nodes1) \cup {[k |-> "node", attrs |-> {"id
 \* replay cases: probe type x value shape (the harness builds the bare and the wrapped value of that shape)
 Probes == {"leaf", "attrs", "nested", "tree", "restricted"}
 TextClasses == {"empty", "plain", "escape", "nonascii"}
-Shapes == [probe : Probes, text : TextClasses, opt : BOOLEAN, count : 0..2, depth : 0..2, attr : {"absent", "present"}, violates : BOOLEAN]
+\* depth 70: a chain of seventy wrapped nodes - transparency has no depth limit (seed C19-f)
+Shapes == [probe : Probes, text : TextClasses, opt : BOOLEAN, count : 0..2, depth : (0..2) \cup {70}, attr : {"absent", "present"}, violates : BOOLEAN]
 \* drop shapes that do not differ for the probe
 Relevant(s) == /\ (s.probe = "leaf" => (s.count = 0 /\ s.depth = 0 /\ ~s.opt /\ s.attr = "absent" /\ ~s.violates))
                /\ (s.probe = "attrs" => (s.count = 0 /\ s.depth = 0 /\ ~s.opt /\ ~s.violates))
                /\ (s.probe = "nested" => (s.depth = 0 /\ ~s.violates))
                /\ (s.probe = "tree" => (~s.opt /\ s.attr = "absent" /\ ~s.violates /\ s.count >= 1))
+               /\ (s.depth = 70 => (s.probe = "tree" /\ s.count = 1 /\ s.text = "plain"))
                /\ (s.probe = "restricted" => (s.depth = 0 /\ s.attr = "absent"))
 
 MCInit == c \in ({[kind |-> "model", v |-> v] : v \in Values} \cup {[kind |-> "probe", s |-> s] : s \in {s \in Shapes : Relevant(s)}})
